@@ -342,6 +342,22 @@ def soft_raw(logits, tau=1.0):
     _check_temperature(tau)
     return _softmax_tau(logits, tau)
 
+def gumbel_softmax(logits, tau=1.0, hard=False):
+    """Gumbel-softmax sample over the last axis (noise drawn like torch.nn.functional.gumbel_softmax).
+
+    The hard sample is the one-hot of the argmax of logits + noise itself: the rounded softmax((logits + noise) / tau) ties
+    for large temperatures (its argmax is then always gate 0) and is NaN when (logits + noise) / tau overflows.
+    """
+    _check_temperature(tau)
+    gumbels = -torch.empty_like(logits, memory_format=torch.legacy_contiguous_format).exponential_().log()
+    z = logits + gumbels
+    y_soft = _softmax_tau(z, tau)
+    if hard:
+        index = z.max(-1, keepdim=True)[1]
+        y_hard = torch.zeros_like(logits, memory_format=torch.legacy_contiguous_format).scatter_(-1, index, 1.0)
+        return y_hard - y_soft.detach() + y_soft
+    return y_soft
+
 def hard_raw(logits, tau=1.0):
     _check_temperature(tau)
     x = _softmax_tau(logits, tau)
